@@ -8,6 +8,7 @@ import Sonic.Model.Memcmp
 import Sonic.Model.StringDec
 import Sonic.Model.Ftoa
 import Sonic.Model.Number
+import Sonic.Model.OnDemand
 
 /-!
 # Line-protocol driver (`sonic_model`)
@@ -39,6 +40,8 @@ def hexOf (bs : List Nat) : String :=
   if bs.isEmpty then "-" else
   let hd (n : Nat) : Char := if n < 10 then Char.ofNat (48 + n) else Char.ofNat (87 + n)
   String.ofList (bs.foldr (fun b acc => hd (b / 16 % 16) :: hd (b % 16) :: acc) [])
+
+def dropStr (n : Nat) (s : String) : String := String.ofList (s.toList.drop n)
 
 def specParseStr (bs : List Nat) : String :=
   match Sonic.Spec.Json.parse bs with
@@ -104,6 +107,22 @@ def step (st : DState) (line : String) : DState × String :=
   | "quote" :: _ => (st, Sonic.Model.Quote.runLine st.W toks)
   | "atof" :: _ | "prim-el" :: _ | "prim-nf" :: _ | "prim-native" :: _ | "prim-str2int" :: _ =>
     (st, Sonic.Model.Number.runLine toks)
+  | "ondemand" :: _ :: hx :: _ =>
+    -- model line, plus the spec value of the slice the model returns (`slice=`): lets the judge check
+    -- "the slice parses to the value the path resolves to" whenever implementation and model agree on the bounds
+    let o := Sonic.Model.OnDemand.runLine st.W toks
+    let extra := match o.splitOn " ", parseHex hx with
+      | "ok" :: a :: b :: _, some data =>
+        match (dropStr 6 a).toNat?, (dropStr 4 b).toNat? with
+        | some s, some e => " slice=" ++ dropStr 5 (specParseStr ((data.drop s).take (e - s)))
+        | _, _ => ""
+      | _, _ => ""
+    (st, o ++ extra)
+  | "pod" :: _ => (st, Sonic.Model.OnDemand.runLine st.W toks)
+  | ["slice-spec", hx, a, b] =>
+    match parseHex hx, a.toNat?, b.toNat? with
+    | some data, some s, some e => (st, dropStr 5 (specParseStr ((data.drop s).take (e - s))))
+    | _, _, _ => (st, "bad-op")
   | "f64toa" :: _ => (st, Sonic.Model.Ftoa.runLine toks)
   | "memcmp" :: _ => (st, Sonic.Model.Memcmp.runLine toks)
   | "parsestr" :: _ => (st, Sonic.Model.StringDec.runLine st.W toks)
